@@ -232,6 +232,22 @@ fn gen_corpus(r: &Runner, n: usize) -> Vec<CaseRec> {
             out.push(CaseRec::new("variant-pair", Entry::Headers, 0, 4, [&f[..], b": v\r\n\r\n"].concat()));
         }
     }
+    // long fields (multi-block unrolled loops): lengths 100..=300 step 7, fillers with HTAB / obs-text /
+    // boundary bytes, one offender at a pseudo-random position
+    for len in (100..=300usize).step_by(7) {
+        for (fi, bad) in [(1usize, 0x7fu8), (1, 0x0a), (2, 0x7f), (2, 0x1f), (3, 0x7f), (3, 0x00), (5, 0x7f), (5, 0x20)] {
+            for posk in 0..6usize {
+                let mut fv = Vec::new();
+                crate::gen::fill(&mut fv, len, [0usize, 1, 2, 3, 4, 5][fi], (len * 7 + posk) as u16);
+                let mut ft: Vec<u8> = fv.iter().map(|&b| if b == b' ' || b == b'\t' { b'!' } else { b }).collect();
+                let pos = (len * (posk + 1) / 7 + posk * 13) % len;
+                fv[pos] = bad;
+                ft[pos] = bad;
+                out.push(CaseRec::new("variant-pair", Entry::Headers, 0, 4, [&b"Name: v"[..], &fv, b"\r\n\r\n"].concat()));
+                out.push(CaseRec::new("variant-pair", Entry::ReqParse, 0, 4, [&b"GET /"[..], &ft, b" HTTP/1.1\r\n\r\n"].concat()));
+            }
+        }
+    }
     for nd in 0..=20 {
         for d in [b'0', b'f', b'F', b'9'] {
             let mut b = vec![d; nd];
